@@ -12,7 +12,7 @@ inductive Value where
   | num (x : Bits)
   | str (s : Str)
   | nodes (ks : List Key)
-  deriving Inhabited
+  deriving Inhabited, DecidableEq
 
 inductive XPErr where
   | type            -- an operand or argument of the wrong type (node-set expected)
